@@ -10,7 +10,10 @@ package main
 //	'K' chunk of records: uvarint unit, uvarint first item, uvarint number of
 //	    items, 8 bytes running FNV-1a of all inputs of the unit up to the end of
 //	    the chunk, then per item and per target of the unit one record:
-//	      uvarint code: 0 = ok, followed by uvarint len(rest) and the 16-byte digest
+//	      uvarint code: 0 = ok, followed by uvarint len(rest), the 16-byte digest and, when the
+//	                        result type of the target is a struct with n exported fields, a bitmap
+//	                        of ceil(n/8) bytes (bit set = field holds its zero value) and a 4-byte
+//	                        hash per non-zero field (see fieldSum)
 //	                    1 = not applicable (no TBS element could be cut out)
 //	                    n>=2 = failed with error class n-2
 //
@@ -225,7 +228,48 @@ func workerMain() {
 	}
 }
 
-const chunkItems = 512
+const chunkItems = 256
+
+// appendFieldSums encodes the per-field summaries of a struct result.
+func appendFieldSums(rec []byte, fs []fieldSum, nf int) []byte {
+	if len(fs) != nf {
+		panic(fmt.Sprintf("c20: walker captured %d field summaries, the result type has %d exported fields", len(fs), nf))
+	}
+	base := len(rec)
+	for i := 0; i < (nf+7)/8; i++ {
+		rec = append(rec, 0)
+	}
+	for i, f := range fs {
+		if f.Zero {
+			rec[base+i/8] |= 1 << uint(i%8)
+		} else {
+			rec = append(rec, byte(f.Hash), byte(f.Hash>>8), byte(f.Hash>>16), byte(f.Hash>>24))
+		}
+	}
+	return rec
+}
+
+// readFieldSums is the inverse; n is the number of bytes consumed.
+func readFieldSums(b []byte, nf int) (fs []fieldSum, n int, ok bool) {
+	bm := (nf + 7) / 8
+	if len(b) < bm {
+		return nil, 0, false
+	}
+	fs = make([]fieldSum, nf)
+	n = bm
+	for i := 0; i < nf; i++ {
+		if b[i/8]&(1<<uint(i%8)) != 0 {
+			fs[i].Zero = true
+			continue
+		}
+		if len(b) < n+4 {
+			return nil, 0, false
+		}
+		fs[i].Hash = uint32(b[n]) | uint32(b[n+1])<<8 | uint32(b[n+2])<<16 | uint32(b[n+3])<<24
+		n += 4
+	}
+	return fs, n, true
+}
 
 func (w *worker) runUnit(uid int) {
 	u := &w.units[uid]
@@ -297,6 +341,9 @@ func (w *worker) runUnit(uid int) {
 				putU(0)
 				putU(uint64(rest))
 				rec = append(rec, dg[:]...)
+				if nf := len(t.fields); nf > 0 {
+					rec = appendFieldSums(rec, w.wk.fields, nf)
+				}
 			case class != "":
 				putU(2 + w.classID(class))
 			default:
@@ -304,7 +351,7 @@ func (w *worker) runUnit(uid int) {
 			}
 		}
 		n++
-		if n >= chunkItems || len(rec) > 48<<10 {
+		if n >= chunkItems { // by item count only: both workers must cut their chunks at the same items
 			flush()
 		}
 		return true
